@@ -12,7 +12,14 @@ Python equivalents of Engineering library functions
 """
 import functools
 
-from pycel.excelutil import EMPTY, ERROR_CODES, flatten, NUM_ERROR, VALUE_ERROR
+from pycel.excelutil import (
+    coerce_to_number,
+    EMPTY,
+    ERROR_CODES,
+    flatten,
+    NUM_ERROR,
+    VALUE_ERROR,
+)
 from pycel.lib.function_helpers import (
     excel_math_func,
 )
@@ -65,6 +72,10 @@ def _dec2base(value, places=None, base=16):
             return NUM_ERROR
         value = 0
 
+    value = coerce_to_number(value)
+    if isinstance(value, str):
+        # not a number for excel, even where int() reads one ('1_0')
+        return VALUE_ERROR
     try:
         value = int(value)
     except ValueError:
